@@ -128,6 +128,10 @@ func (in *interpreter) uninterpHash(kind string, input []value, n int) []value {
 			}
 		}
 	}
+	if in.inMerge > 0 {
+		// the consistency constraints below are path-condition entries, which a merged arm cannot keep
+		panic(mergeAbort{"hash in arm"})
+	}
 	out := make([]value, n)
 	for i := range out {
 		out[i] = in.freshVar(fmt.Sprintf("%s!%d[%d]", kind, len(calls), i), 8)
